@@ -6,12 +6,12 @@ from props import PROPS
 ids = [json.loads(l)["id"] for l in open(os.path.join(ROOT, "properties.jsonl"))]
 hooks = json.load(open(os.path.join(ROOT, "hooks.json")))
 na = json.load(open(os.path.join(ROOT, "not_applicable.json")))
-import subprocess
-tracked = set(os.path.basename(x)[:-5] for x in subprocess.run(["git", "-C", ROOT, "ls-files", "props.d"], capture_output=True, text=True).stdout.split())
+# only reviewed checks are claimed: ids listed in claimed.txt (maintained by hand after review)
+tracked = set(open(os.path.join(ROOT, "claimed.txt")).read().split())
 checks = []
 for pid in ids:
     if pid not in PROPS or pid not in tracked:
-        continue  # only reviewed (git-tracked) checks are claimed
+        continue  # only reviewed checks (claimed.txt) are claimed
     c = PROPS[pid]
     m = c["manifest"]
     checks.append({
